@@ -13,7 +13,7 @@
 (***************************************************************************)
 EXTENDS Naturals, Sequences, FiniteSets, TLC
 CONSTANTS Threads,   \* thread identities
-          Script,    \* [Threads -> Seq(op)], op = [k : {"alloc","free","realloc","badfree"}, b : block, b2 : block]
+          Script,    \* [Threads -> Seq(op)], op = [k : {"alloc","free","realloc","badfree","allocfail"}, b : block, b2 : block]
           AsCoded
 
 VARIABLES owner,     \* holder of the detector mutex, or "none"
@@ -56,7 +56,9 @@ TableOp(t) ==
          [] o.k = "realloc" /\ o.b \in table ->
               /\ table' = (table \ {o.b}) \cup {o.b2} /\ held' = [held EXCEPT ![t] = (@ \ {o.b}) \cup {o.b2}]
               /\ pc' = [pc EXCEPT ![t] = "release"] /\ UNCHANGED failed
-         [] OTHER ->      \* releasing something that is not outstanding: misuse report
+         [] OTHER ->      \* a test failure raised inside the locked region: releasing something that is not outstanding (misuse
+                          \* report), or an allocator that fails the test because it cannot satisfy the request (k = "allocfail":
+                          \* what the default allocator does when the C library returns NULL) - nothing is added to the table
               /\ UNCHANGED <<table, held>>
               /\ failed' = [failed EXCEPT ![t] = @ + 1]
               /\ pc' = [pc EXCEPT ![t] = IF AsCoded THEN "jumped" ELSE "release"]
